@@ -39,6 +39,18 @@ def take_sig_outside(u, sf, path, modname, uses):
     u.rule("stub", "%s: real signature kept outside verus!{} with body unimplemented!() (callee of an E9 stub body only)  <- %s:%d" % (path, sf.rel, sf.line_of(it["sig"][0])))
 
 
+def gc(sf, path, names, extra="Tracked(k)"):
+    """E4 ghost arguments for every call of the named callees that is present in the function (a call that was deleted
+    from the tree must make the postcondition fail, not the extraction)"""
+    it = sf.item(path, "fn")
+    out = []
+    for n in names:
+        hit = [c for c in it["calls"] if c["callee"].replace(" ", "") == n or c["callee"].replace(" ", "").endswith("::" + n) or c["callee"].replace(" ", "").endswith("." + n)]
+        if hit:
+            out.append((n, "all", extra))
+    return out
+
+
 def cfg_windows_param(sf, it):
     """the `#[cfg(windows)] name: T` parameter of a fn (vxlib's E2 handles items/statements/variants, not parameters)"""
     ps = [p for p in it["params"] if re.match(r"#\[cfg\(windows\)\]", sf.s(p["span"][0], p["span"][1]))]
@@ -58,7 +70,13 @@ def build(u):
     rdw = u.src("proxy_agent/src/shared_state/redirector_wrapper.rs")
     psw = u.src("proxy_agent/src/shared_state/proxy_server_wrapper.rs")
     hc = u.src("proxy_agent/src/common/hyper_client.rs")
-    for f in ("str_axioms.rs", "ext_types.rs", "std_string.rs"):
+    ps = u.src("proxy_agent/src/proxy/proxy_server.rs")
+    kkw = u.src("proxy_agent/src/shared_state/key_keeper_wrapper.rs")
+    asw = u.src("proxy_agent/src/shared_state/agent_status_wrapper.rs")
+    prw = u.src("proxy_agent/src/shared_state/provision_wrapper.rs")
+    tlw = u.src("proxy_agent/src/shared_state/telemetry_wrapper.rs")
+    u.features += ["pattern", "const_destruct", "const_trait_impl"]
+    for f in ("str_axioms.rs", "ext_types.rs", "std_string.rs", "http.rs"):
         u.raw(open(os.path.join(COMMON, f)).read())
     emit_outside(u, open(os.path.join(HERE, "aya_standin.rs")).read(),
                  "crate aya (not linked): API stand-in module `aya` (signatures of Ebpf::map/map_mut, maps::HashMap::get/remove, TryFrom<&Map>/<&mut Map>) placed outside verus!{}")
@@ -82,6 +100,14 @@ def build(u):
     with u.mod("shared_state"):
         with u.mod("proxy_server_wrapper"):
             u.placeholder_ext(psw, ["ProxyServerSharedState"], "vx_ph_psw")
+        with u.mod("key_keeper_wrapper"):
+            u.placeholder_ext(kkw, ["KeyKeeperSharedState"], "vx_ph_kkw")
+        with u.mod("agent_status_wrapper"):
+            u.placeholder_ext(asw, ["AgentStatusSharedState"], "vx_ph_asw")
+        with u.mod("provision_wrapper"):
+            u.placeholder_ext(prw, ["ProvisionSharedState"], "vx_ph_prw")
+        with u.mod("telemetry_wrapper"):
+            u.placeholder_ext(tlw, ["TelemetrySharedState"], "vx_ph_tlw")
         with u.mod("redirector_wrapper", uses="use crate::common::result::Result;\nuse crate::redirector;\nuse std::sync::{Arc, Mutex};"):
             u.placeholder_ext(rdw, ["RedirectorSharedState"], "vx_ph_rdw")
             with u.impl_(rdw, "RedirectorSharedState"):
@@ -95,7 +121,7 @@ def build(u):
             u.take_fn(rd, "AuditEntry::destination_port_in_host_byte_order", contract="        ensures r == dest_port_of(*self),  // @C07.AuditEntry.destination_port_decoding\n")
             u.take_fn(rd, "AuditEntry::destination_ipv4_addr", contract="        ensures r == dest_ip_of(*self),  // @C07.AuditEntry.destination_ip_decoding\n")
         build_linux(u, lx, eo)
-        u.take_fn(rd, "lookup_audit", ghost=K, ghost_calls=[("get_bpf_object", None, "Tracked(k)"), ("lookup_audit", None, "Tracked(k)")],
+        u.take_fn(rd, "lookup_audit", ghost=K, ghost_calls=gc(rd, "lookup_audit", ["get_bpf_object", "lookup_audit"]),
                   contract="""
         ensures
             *final(k) == *old(k),
@@ -103,7 +129,7 @@ def build(u):
             old(k).loaded ==> (r is Ok <==> old(k).audit.contains_key(source_port)),  // @C07.lookup_audit.ok_iff_record_present
             r is Ok ==> old(k).loaded,
 """)
-        u.take_fn(rd, "remove_audit", ghost=K, ghost_calls=[("get_bpf_object", None, "Tracked(k)"), ("remove_audit_map_entry", None, "Tracked(k)")],
+        u.take_fn(rd, "remove_audit", ghost=K, ghost_calls=gc(rd, "remove_audit", ["get_bpf_object", "remove_audit_map_entry"]),
                   contract="""
         ensures
             final(k).loaded == old(k).loaded,
@@ -113,7 +139,7 @@ def build(u):
 """)
 
 
-    build_proxy(u, px, pc, hc, psw)
+    build_proxy(u, px, pc, hc, ps)
 
 
 def build_linux(u, lx, eo):
@@ -123,10 +149,10 @@ def build_linux(u, lx, eo):
             u.take(eo, "sock_addr_audit_key", "struct")
             with u.impl_(eo, "sock_addr_audit_key"):
                 u.take_fn(eo, "sock_addr_audit_key::from_source_port", contract="""
-        ensures r.protocol == 6 && r.source_port == port as u32,
+        ensures r.protocol == 6 && r.source_port == port as u32,  // @C07.sock_addr_audit_key_from_source_port.tcp_and_this_port
 """)
                 u.take_fn(eo, "sock_addr_audit_key::to_array", contract="""
-        ensures r@ == seq![self.protocol, self.source_port],
+        ensures r@ == seq![self.protocol, self.source_port],  // @C07.sock_addr_audit_key_to_array.layout
 """)
             u.take(eo, "sock_addr_audit_entry", "struct")
             with u.impl_(eo, "sock_addr_audit_entry"):
@@ -136,17 +162,35 @@ def build_linux(u, lx, eo):
         u.take_ext(lx, ["BpfObject"], "vx_ext_bpf_object", uses="use crate::aya::Ebpf;")
         AUDIT_RO = "crate::aya::maps::HashMap<&'a crate::aya::maps::MapData, [u32; 2], [u32; 5]>"
         AUDIT_RW = "crate::aya::maps::HashMap<&'a mut crate::aya::maps::MapData, [u32; 2], [u32; 5]>"
+        def one_call(fnpath, kind, callee, nargs):
+            it = lx.item(fnpath, "fn")
+            c = [c for c in it["calls"] if c["kind"] == kind and c["callee"].replace(" ", "").split("::")[-1] == callee and len(c["args"]) == nargs]
+            if len(c) != 1:
+                raise Undecided("%s: expected exactly one call of %s with %d argument(s), found %d" % (fnpath, callee, nargs, len(c)))
+            return c[0]
+
+        def txt(sp):
+            return lx.s(sp[0], sp[1])
+        LA, RA = "BpfObject::lookup_audit", "BpfObject::remove_audit_map_entry"
+        c_map, c_try, c_get = one_call(LA, "method", "map", 1), one_call(LA, "path", "try_from", 1), one_call(LA, "method", "get", 2)
+        c_mapm, c_trym, c_rem = one_call(RA, "method", "map_mut", 1), one_call(RA, "path", "try_from", 1), one_call(RA, "method", "remove", 1)
+        if txt(c_map["receiver"]) != "self.0" or txt(c_mapm["receiver"]) != "self.0":
+            raise Undecided("BpfObject: the audit map is no longer fetched from self.0")
+        if re.sub(r"\s+", "", txt(c_get["args"][1])) != "0":
+            raise Undecided("BpfObject::lookup_audit: lookup flags are no longer 0")
+        if re.sub(r"\s+", "", txt(c_trym["callee_span"])) != "HashMap::<&mutMapData,[u32;2],[u32;5]>::try_from" or txt(c_try["callee_span"]) != "HashMap::try_from":
+            raise Undecided("BpfObject: the audit map is no longer opened as aya HashMap<_, [u32; 2], [u32; 5]>")
         with u.impl_(lx, "BpfObject"):
             u.take_fn(lx, "BpfObject::lookup_audit", ghost=K,
                       pre_body="broadcast use axiom_fmt_aya_map_error, axiom_to_string_string;",
                       e9=[
-                          ("self.0.map(audit_map_name)", None, "this: &'a BpfObject, name: &str, Tracked(k): Tracked<&mut Kernel>", "self, audit_map_name, Tracked(k)",
+                          (tuple(c_map["span"]), None, "this: &'a BpfObject, name: &str, Tracked(k): Tracked<&mut Kernel>", "self, %s, Tracked(k)" % txt(c_map["args"][0]),
                            "Option<&'a crate::aya::maps::Map>", '    ensures *final(k) == *old(k), old(k).loaded && name@ == "audit_map"@ ==> r is Some,',
                            dict(name="vx_e9_ebpf_map", generics="<'a>", body="this.0.map(name)", local=True)),
-                          ("HashMap::try_from(map)", None, "map: &'a crate::aya::maps::Map, Tracked(k): Tracked<&mut Kernel>", "map, Tracked(k)",
+                          (tuple(c_try["span"]), None, "map: &'a crate::aya::maps::Map, Tracked(k): Tracked<&mut Kernel>", "%s, Tracked(k)" % txt(c_try["args"][0]),
                            "core::result::Result<%s, crate::aya::maps::MapError>" % AUDIT_RO, "    ensures *final(k) == *old(k), old(k).loaded ==> r is Ok,",
                            dict(name="vx_e9_audit_map_try_from", generics="<'a>", body="crate::aya::maps::HashMap::try_from(map)", local=True)),
-                          ("audit_map.get(&key.to_array(), 0)", None, "audit_map: &%s, key: &[u32; 2], Tracked(k): Tracked<&mut Kernel>" % AUDIT_RO, "&audit_map, &key.to_array(), Tracked(k)",
+                          (tuple(c_get["span"]), None, "audit_map: &%s, key: &[u32; 2], Tracked(k): Tracked<&mut Kernel>" % AUDIT_RO, "&%s, %s, Tracked(k)" % (txt(c_get["receiver"]), txt(c_get["args"][0])),
                            "core::result::Result<[u32; 5], crate::aya::maps::MapError>", """
     ensures *final(k) == *old(k),
             port_of_key(key@) matches Some(p) ==> (r is Ok <==> old(k).audit.contains_key(p)) && (r matches Ok(v) ==> entry_of_raw(v@) == old(k).audit[p]),""",
@@ -161,13 +205,13 @@ def build_linux(u, lx, eo):
             u.take_fn(lx, "BpfObject::remove_audit_map_entry", ghost=K,
                       pre_body="broadcast use axiom_fmt_aya_map_error, axiom_to_string_string;",
                       e9=[
-                          ("self.0.map_mut(audit_map_name)", None, "this: &'a mut BpfObject, name: &str, Tracked(k): Tracked<&mut Kernel>", "self, audit_map_name, Tracked(k)",
+                          (tuple(c_mapm["span"]), None, "this: &'a mut BpfObject, name: &str, Tracked(k): Tracked<&mut Kernel>", "self, %s, Tracked(k)" % txt(c_mapm["args"][0]),
                            "Option<&'a mut crate::aya::maps::Map>", '    ensures *final(k) == *old(k), old(k).loaded && name@ == "audit_map"@ ==> r is Some,',
                            dict(name="vx_e9_ebpf_map_mut", generics="<'a>", body="this.0.map_mut(name)", local=True)),
-                          ("HashMap::<&mut MapData, [u32; 2], [u32; 5]>::try_from(map)", None, "map: &'a mut crate::aya::maps::Map, Tracked(k): Tracked<&mut Kernel>", "map, Tracked(k)",
+                          (tuple(c_trym["span"]), None, "map: &'a mut crate::aya::maps::Map, Tracked(k): Tracked<&mut Kernel>", "%s, Tracked(k)" % txt(c_trym["args"][0]),
                            "core::result::Result<%s, crate::aya::maps::MapError>" % AUDIT_RW, "    ensures *final(k) == *old(k), old(k).loaded ==> r is Ok,",
                            dict(name="vx_e9_audit_map_try_from_mut", generics="<'a>", body="crate::aya::maps::HashMap::<&mut crate::aya::maps::MapData, [u32; 2], [u32; 5]>::try_from(map)", local=True)),
-                          ("audit_map.remove(&key.to_array())", None, "audit_map: &mut %s, key: &[u32; 2], Tracked(k): Tracked<&mut Kernel>" % AUDIT_RW, "&mut audit_map, &key.to_array(), Tracked(k)",
+                          (tuple(c_rem["span"]), None, "audit_map: &mut %s, key: &[u32; 2], Tracked(k): Tracked<&mut Kernel>" % AUDIT_RW, "&mut %s, %s, Tracked(k)" % (txt(c_rem["receiver"]), txt(c_rem["args"][0])),
                            "core::result::Result<(), crate::aya::maps::MapError>", """
     ensures final(k).loaded == old(k).loaded,
             port_of_key(key@) matches Some(p) ==> (r is Ok <==> old(k).audit.contains_key(p)) && (r is Ok ==> final(k).audit == old(k).audit.remove(p))
@@ -183,7 +227,7 @@ def build_linux(u, lx, eo):
 """)
 
 
-def build_proxy(u, px, pc, hc, psw):
+def build_proxy(u, px, pc, hc, ps):
     with u.mod("proxy", uses="use crate::common::result::Result;\nuse crate::redirector::AuditEntry;\nuse crate::shared_state::proxy_server_wrapper::ProxyServerSharedState;\nuse std::{ffi::OsString, net::IpAddr, path::PathBuf};"):
         u.take_ext(px, ["Claims"], "vx_ext_claims", uses="use std::{ffi::OsString, path::PathBuf};\nuse serde_derive::{Deserialize, Serialize};", transparent=True)
         u.take(px, "Process", "struct")
@@ -198,6 +242,7 @@ def build_proxy(u, px, pc, hc, psw):
         ensures r matches Ok(c) ==> identity_from_record(c, *entry, client_ip, client_port),  // @C07.from_audit_entry.identity_is_the_records
 """)
         build_conn(u, pc, hc)
+        build_server_slices(u, ps)
 
 
 def build_conn(u, pc, hc):
@@ -231,7 +276,7 @@ use tokio::sync::Mutex;"""
             u.rule("E4", "TcpConnectionContext::get_audit_entry: ghost parameter " + K)
             u.take_fn(pc, "TcpConnectionContext::get_audit_entry",
                       sig_edits=[(wp["span"][0], wp["span"][1], K)],
-                      ghost_calls=[("redirector::lookup_audit", None, "Tracked(k)"), ("redirector::remove_audit", None, "Tracked(k)")],
+                      ghost_calls=gc(pc, "TcpConnectionContext::get_audit_entry", ["redirector::lookup_audit", "redirector::remove_audit"]),
                       pre_body="broadcast use axiom_fmt_error;",
                       contract="""
         ensures
@@ -265,7 +310,7 @@ use tokio::sync::Mutex;"""
             end = l2["span"][1] + (1 if pc.b[l2["span"][1]:l2["span"][1] + 1] == b";" else 0)
             u.take_fn(pc, "TcpConnectionContext::new",
                       sig_edits=[(wpn["span"][0], wpn["span"][1], K), (a0, a1, "")],
-                      ghost_calls=[("Self::get_audit_entry", None, "Tracked(k)")],
+                      ghost_calls=gc(pc, "TcpConnectionContext::new", ["Self::get_audit_entry"]),
                       pre_body="""broadcast use axiom_fmt_error, axiom_to_string_ipv4;
 let ghost k0 = *k;
 proof { if !k0.audit.contains_key(addr_port(client_addr)) { assert(k0.audit.remove(addr_port(client_addr)) =~= k0.audit); } }""",
@@ -293,3 +338,111 @@ proof { if !k0.audit.contains_key(addr_port(client_addr)) { assert(k0.audit.remo
             accept_post(*old(k), *final(k), client_addr, r),  // @C07.new.accept_post_as_used_by_history_lemmas
             old(k).loaded && old(k).audit.contains_key(addr_port(client_addr)) ==> r.destination_ip is Some,  // @C07.new.present_record_gives_destination
 """)
+
+
+CTX_CLONE = ("cloned_tcp_connection_context.clone()", None, "c: &TcpConnectionContext", "&cloned_tcp_connection_context", "TcpConnectionContext",
+             "    ensures same_attribution(r, *c),", dict(name="vx_e9_tcp_ctx_clone", local=True, body="c.clone()"))
+
+
+def build_server_slices(u, ps):
+    """proxy_server.rs handle_new_tcp_connection: how the per-connection context reaches the per-request handler (E5c)."""
+    uses = """use crate::common::result::Result;
+use crate::proxy::proxy_connection::TcpConnectionContext;
+use crate::shared_state::agent_status_wrapper::AgentStatusSharedState;
+use crate::shared_state::key_keeper_wrapper::KeyKeeperSharedState;
+use crate::shared_state::provision_wrapper::ProvisionSharedState;
+use crate::shared_state::proxy_server_wrapper::ProxyServerSharedState;
+use crate::shared_state::redirector_wrapper::RedirectorSharedState;
+use crate::shared_state::telemetry_wrapper::TelemetrySharedState;
+use http_body_util::combinators::BoxBody;
+use hyper::body::{Bytes, Incoming};
+use hyper::{Request, Response};
+use tokio_util::sync::CancellationToken;
+use tower_http::body::Limited;"""
+    FN = "ProxyServer::handle_new_tcp_connection"
+    it = ps.item(FN, "fn")
+    body = ps.s(it["body"][0], it["body"][1])
+    # ---- syntactic census (UNDECIDED if it changes): the names through which the context travels
+    cl = sorted(it["closures"], key=lambda c: c["span"][0])
+    if len(cl) != 2 or not (cl[0]["body"][0] < cl[1]["span"][0] and cl[1]["span"][1] <= cl[0]["body"][1]):
+        raise Undecided("%s: expected the service_fn closure with one nested per-request closure" % FN)
+    for c in cl:
+        if not ps.s(c["span"][0], c["span"][1]).startswith("move "):
+            raise Undecided("%s: a closure on the request path is no longer a `move` closure" % FN)
+    n_cl = len(re.findall(r"\bcloned_tcp_connection_context\b", body))
+    n_tc = len(re.findall(r"\btcp_connection_context\b", body))
+    if n_cl != 4 or n_tc != 2:
+        raise Undecided("%s: the connection context is mentioned %d/%d times (expected 4/2): the hand-over to the handler changed shape" % (FN, n_cl, n_tc))
+    calls = [c for c in it["calls"] if c["kind"] == "method" and c["callee"] == "handle_new_http_request"]
+    if len(calls) != 1 or not (cl[1]["body"][0] < calls[0]["span"][0] and calls[0]["span"][1] <= cl[1]["body"][1]):
+        raise Undecided("%s: expected exactly one call of handle_new_http_request, inside the per-request closure" % FN)
+    root = os.path.join(u.repo.root, "proxy_agent", "src")
+    total = 0
+    for dp, dn, fns in os.walk(root):
+        for f in fns:
+            if f.endswith(".rs"):
+                code = "\n".join(l for l in open(os.path.join(dp, f), encoding="utf-8").read().split("\n") if not l.strip().startswith("//"))
+                total += len(re.findall(r"\bhandle_new_http_request\s*\(", code))
+    if total != 2:   # the definition and the one call
+        raise Undecided("census: handle_new_http_request is mentioned %d times in proxy_agent/src (expected: its definition and one call)" % total)
+    u.rule("census", "handle_new_http_request has exactly one caller (the per-request closure of handle_new_tcp_connection); the context is named "
+                     "tcp_connection_context x2 / cloned_tcp_connection_context x4 in that function; both closures are `move`")
+
+    def let_in(name, lo, hi, excl=None):
+        c = [l for l in it["lets"] if ps.s(l["pat"][0], l["pat"][1]).strip() == name and lo <= l["span"][0] and l["span"][1] <= hi
+             and not (excl and excl[0] <= l["span"][0] and l["span"][1] <= excl[1])]
+        if len(c) != 1:
+            raise Undecided("%s: `let %s` found %d times in the expected scope" % (FN, name, len(c)))
+        return c[0]
+
+    def stmt_end(l):
+        return l["span"][1] + (1 if ps.b[l["span"][1]:l["span"][1] + 1] == b";" else 0)
+
+    with u.mod("proxy_server", uses=uses):
+        u.take(ps, "ProxyServer", "struct", keep_derive=("Clone",))
+        with u.impl_(ps, "ProxyServer"):
+            # the per-request handler: contracts in unit `handler` (C01/C05/C11 speak only about ITS tcp_connection_context parameter).
+            # Here: a stub whose precondition is the C07 obligation of the hand-over.
+            u.take_fn(ps, "ProxyServer::handle_new_http_request", external_body=True, ghost="Ghost(conn): Ghost<TcpConnectionContext>", contract="""
+        requires same_attribution(tcp_connection_context, conn),  // @C07.per_request.handler_receives_the_context_of_its_own_connection
+""")
+        # S3: accept path: the context is built by TcpConnectionContext::new from THIS connection's peer address, then cloned for the service
+        l_ctx = let_in("tcp_connection_context", it["body"][0], cl[0]["span"][0])
+        l_cl0 = let_in("cloned_tcp_connection_context", it["body"][0], cl[0]["span"][0])
+        newc = [c for c in it["calls"] if c["kind"] == "path" and c["callee"].replace(" ", "") == "TcpConnectionContext::new"]
+        if len(newc) != 1 or not (l_ctx["span"][0] <= newc[0]["span"][0] and newc[0]["span"][1] <= l_ctx["span"][1]) or len(newc[0]["args"]) != 5:
+            raise Undecided("%s: expected `let tcp_connection_context = TcpConnectionContext::new(<4 args + 1 windows arg>).await`" % FN)
+        wa = newc[0]["args"][4]
+        watxt = ps.s(wa[0], wa[1])
+        if not watxt.startswith("#[cfg(windows)]") or ps.b[wa[1]:wa[1] + 1] != b",":
+            raise Undecided("%s: the fifth argument of TcpConnectionContext::new is not under cfg(windows)" % FN)
+        if ps.s(l_ctx["span"][1], l_cl0["span"][0]).strip() not in ("", ";"):
+            raise Undecided("%s: statements between the construction of the context and its clone" % FN)
+        u.rule("E2", "%s: call argument under cfg(windows) dropped" % FN)
+        u.slice_fn(ps, FN, "vx_slice_accept_builds_context", l_ctx["span"][0], stmt_end(l_cl0),
+                   "tcp_connection_id: u128, client_addr: std::net::SocketAddr, cloned_proxy_server: &ProxyServer, " + K,
+                   ret_type="TcpConnectionContext", is_async=True, tail="cloned_tcp_connection_context\n",
+                   replacements=[(watxt + ",", None, "")],
+                   ghost_calls=[("TcpConnectionContext::new", None, "Tracked(k)")],
+                   e9=[("tcp_connection_context.clone()", None, "c: &TcpConnectionContext", "&tcp_connection_context", "TcpConnectionContext",
+                        "    ensures same_attribution(r, *c),", dict(name="vx_e9_tcp_ctx_clone", local=True, body="c.clone()"))],
+                   what="(accept path: context built for this connection's peer address and cloned for the service closure)",
+                   contract="""
+        ensures accept_post(*old(k), *final(k), client_addr, r),  // @C07.accept.service_context_is_built_from_this_connections_peer_address
+""")
+        # S2: per request, inside the service_fn closure: the captured context is cloned for the tower service closure
+        l_cl1 = let_in("cloned_tcp_connection_context", cl[0]["body"][0], cl[0]["body"][1], excl=cl[1]["span"])
+        u.slice_fn(ps, FN, "vx_slice_service_fn_clones_context", l_cl1["span"][0], stmt_end(l_cl1),
+                   "cloned_tcp_connection_context: &TcpConnectionContext", ret_type="TcpConnectionContext", tail="cloned_tcp_connection_context\n",
+                   e9=[CTX_CLONE], what="(service_fn closure: per-request clone of the captured connection context)",
+                   contract="""
+        ensures same_attribution(r, *cloned_tcp_connection_context),  // @C07.per_request.service_fn_passes_on_the_captured_context
+""")
+        # S1: the per-request closure body: the handler is called with a clone of the captured context
+        u.slice_fn(ps, FN, "vx_slice_per_request_call", cl[1]["body"][0] + 1, cl[1]["body"][1] - 1,
+                   "cloned_proxy_server: &ProxyServer, cloned_tcp_connection_context: &TcpConnectionContext, req: Request<Limited<Incoming>>",
+                   ret_type="Result<Response<BoxBody<Bytes, hyper::Error>>>", is_async=True, tail=".await\n",
+                   ghost_calls=[("handle_new_http_request", None, "Ghost(*cloned_tcp_connection_context)")],
+                   e9=[CTX_CLONE,
+                       ("cloned_proxy_server.clone()", None, "p: &ProxyServer", "&cloned_proxy_server", "ProxyServer", "", dict(name="vx_e9_proxy_server_clone", local=True, body="p.clone()"))],
+                   what="(per-request closure body; the returned future is awaited by tower/hyper: `.await` appended)")
